@@ -285,15 +285,11 @@ Section Valid.
               | Some ty =>
                   String.eqb (t_kind ty) "INPUT_OBJECT" &&
                   (* every given key is a known input field with an acceptable value *)
-                  (fix go (l : list (string * json)) : bool :=
-                     match l with
-                     | [] => true
-                     | (key, x) :: rest =>
-                         match find_ifield (t_inputs ty) key with
-                         | Some f => valid_value s x (if_type f)
-                         | None => negb strict
-                         end && go rest
-                     end) kvs &&
+                  forallb (fun kv => let '(key, x) := kv in
+                                     match find_ifield (t_inputs ty) key with
+                                     | Some f => valid_value s x (if_type f)
+                                     | None => negb strict
+                                     end) kvs &&
                   (* every required input field is given *)
                   forallb (fun f => negb (is_nonnull (if_type f)) ||
                                     existsb (fun kv => String.eqb (fst kv) (if_name f)) kvs) (t_inputs ty)
@@ -344,15 +340,12 @@ Section Valid.
                     else if is_composite_kind k then
                       match subs with
                       | [] => false
-                      | _ => (fix go (l : list sel) : bool :=
-                                match l with [] => true | x :: r => valid_sel s n x && go r end) subs
+                      | _ => forallb (valid_sel s n) subs
                       end
                     else false
                 end
           | SFrag on subs =>
-              (negb strict || String.eqb on ty) &&
-              (fix go (l : list sel) : bool :=
-                 match l with [] => true | x :: r => valid_sel s ty x && go r end) subs
+              (negb strict || String.eqb on ty) && forallb (valid_sel s ty) subs
           end
         else if String.eqb (t_kind t) "UNION" then
           match q with
@@ -360,8 +353,7 @@ Section Valid.
               String.eqb name "__typename" && match args, subs with [], [] => true | _, _ => false end
           | SFrag on subs =>
               if existsb (fun p => String.eqb (fst p) on) (t_possible t) then
-                (fix go (l : list sel) : bool :=
-                   match l with [] => true | x :: r => valid_sel s on x && go r end) subs
+                forallb (valid_sel s on) subs
               else negb strict
           end
         else false
